@@ -69,11 +69,12 @@ fn model_look_at<T: Sx, M: View<T>>(view: &'static str) {
     for i in 0..4 {
         for j in 0..4 {
             let name = if j == 3 && i < 3 { format!("cutT/model*view=I[{}][3]", i) } else { format!("model*view=I[{}][{}]", i, j) };
-            goal(&name, eq(p[i][j], k((i == j) as i64)));
             if i < 3 && j < 3 {
-                hyp("cutT/", eq(p[i][j], k((i == j) as i64)));
+                lemma("cutT/", &name, eq(p[i][j], k((i == j) as i64)));
                 abs.push(me[i][j]);
                 abs.push(ve[i][j]);
+            } else {
+                goal(&name, eq(p[i][j], k((i == j) as i64)));
             }
         }
     }
